@@ -103,6 +103,8 @@ RAW = [
     ("arr_assign_let", "LET M( 2 ) = 3", "arr_assign"),
     ("str_arr_assign", 'N$( 1 ) = "X" + N$( 2 )', "str_arr_assign"),
     ("sound", "SOUND 100 , A", "sound"),
+    ("on_goto3", "ON A GOTO 100 , 110 , 100", "on_n_go_statement"),
+    ("on_gosub3", "ON A GOSUB 100 , 110 , 100 , 110", "on_n_go_statement"),
     ("poke", "POKE 1024 , A", "poke_statement"),
     ("poke_fast", "POKE 65497 , 0", "poke_statement"),
     ("poke_slow", "POKE &HFFD8 , 0", "poke_statement"),
@@ -334,6 +336,8 @@ NUM_SHAPES = [
     ("conv_elem", "M( INT( V ) )"),
     ("dev", "JOYSTK( 0 )"),
     ("conv_neg", "INT( - V / 2 )"),
+    ("neg_conv", "- INT( V )"),
+    ("not_conv", "NOT INT( V )"),
     ("zero", "0"),
     ("hexb", "&H8000"),
     ("hexs", "&H7FFF"),
